@@ -16,9 +16,17 @@
 //!   c03.cursor / c03.cursor.any parse_with_lexer with the cursor afterwards (`c03.parsec`, Model/ParserCursor): on the
 //!                               conformant renderings of c03.parse mode plain / on mutated renderings, token soup, noise
 //!   c03.tails                   the tails appended to renderings are exactly `Spec/Render.tails` (the proven ones)
+//!   c03.enc                     parse_indirect_object with a real RC4 `Decoder` (V 1 / R 2 40 bit, V 2 / R 3 128 bit; dictionary entries and
+//!                               per-object keys computed by `crate::c06::std_sec`) on renderings of values whose strings are encrypted,
+//!                               against `c03.parsedec` (the model gets the object key only). The request RECORDED for a case carries one
+//!                               more field, `fk=<file key>`, which is not sent to the driver: with it a stored disagreement is re-run
+//!                               (`Decoder::new(file key, length, V2, true)` decrypts exactly like the decoder `from_password` returns)
 //! Oracles (the real library against the printer's input value, independent of the model):
 //!   c03.denotes                 the value read equals the value printed, the cursor rests behind its text
 //!   c03.sequence                the i-th parse of a sequence gives the i-th value and rests behind the i-th text
+//!   c03.decrypts                every case of c03.enc: the value read is the PLAINTEXT value (strings decrypted, everything else as printed),
+//!                               id and generation as printed, the cursor right behind `endobj`; an AESV2 decoder on strings that are no
+//!                               AES ciphertext: `Err`, never a panic (witness `failing-decryptor`)
 //!   c03.restore                 after `Err` of parse_with_lexer the cursor is where the call started; after `Ok` it moved
 //!                               forward and stays inside the buffer (every case of c03.cursor and c03.cursor.any)
 //! The histogram of c03.render counts which layout freedoms of the syntax the renderings exercised (`freedom.*`).
@@ -30,8 +38,9 @@ use self::render::*;
 use crate::driver::{hex, unhex, Driver};
 use crate::report::*;
 use crate::rng::Rng;
+use pdf::crypt::{CryptDict, CryptMethod, Decoder};
 use pdf::error::PdfError;
-use pdf::object::{Object, ParseOptions, PlainRef, RcRef, Ref, Resolve};
+use pdf::object::{NoResolve, Object, ParseOptions, PlainRef, RcRef, Ref, Resolve};
 use pdf::enc::StreamFilter;
 use pdf::parser::{parse_indirect_object, parse_stream, parse_with_lexer, Context, HexStringLexer, Lexer, ParseFlags, StringLexer, Substr};
 use pdf::primitive::Primitive;
@@ -519,17 +528,7 @@ pub fn imp_parse(mode: &str, buf: &[u8], pos: usize, flags: u16, off: usize, len
                     Err(_) => Parsed { text: "err".into(), id: None, val: None, pos: lx.get_pos() },
                 }
             }
-            "ind0" | "ind1" => {
-                let res = TestResolve::new(lens, mode == "ind1");
-                let mut lx = lexer_at(buf, pos, off);
-                match parse_indirect_object(&mut lx, &res, None, fl) {
-                    Ok((id, p)) => {
-                        let v = prim_to_val(&p, &res);
-                        Parsed { text: format!("ok {}.{} {} {}", id.id, id.gen, show_canon(&v), lx.get_pos()), id: Some((id.id, id.gen)), val: Some(v), pos: lx.get_pos() }
-                    }
-                    Err(_) => Parsed { text: "err".into(), id: None, val: None, pos: lx.get_pos() },
-                }
-            }
+            "ind0" | "ind1" => parse_ind(mode, buf, pos, fl, off, lens, None),
             "stm" => {
                 let res = TestResolve::new(lens, false);
                 let id = ctx_id.unwrap_or((0, 0));
@@ -546,6 +545,36 @@ pub fn imp_parse(mode: &str, buf: &[u8], pos: usize, flags: u16, off: usize, len
         }
     }));
     r.unwrap_or_else(|_| Parsed { text: "panic".into(), id: None, val: None, pos: 0 })
+}
+
+/// `parse_indirect_object` (strict for `ind0`, tolerant for `ind1`), with or without a decoder
+fn parse_ind(mode: &str, buf: &[u8], pos: usize, fl: ParseFlags, off: usize, lens: &LenMap, dec: Option<&Decoder>) -> Parsed {
+    let res = TestResolve::new(lens, mode == "ind1");
+    let mut lx = lexer_at(buf, pos, off);
+    match parse_indirect_object(&mut lx, &res, dec, fl) {
+        Ok((id, p)) => {
+            let v = prim_to_val(&p, &res);
+            Parsed { text: format!("ok {}.{} {} {}", id.id, id.gen, show_canon(&v), lx.get_pos()), id: Some((id.id, id.gen)), val: Some(v), pos: lx.get_pos() }
+        }
+        Err(_) => Parsed { text: "err".into(), id: None, val: None, pos: lx.get_pos() },
+    }
+}
+
+/// runs the real `parse_indirect_object` with the decoder `dec` the way `c03.parsedec ind0|ind1 …` describes
+pub fn imp_parse_dec(mode: &str, buf: &[u8], pos: usize, flags: u16, off: usize, lens: &LenMap, dec: &Decoder) -> Parsed {
+    if mode != "ind0" && mode != "ind1" {
+        return Parsed { text: "unsupported-mode".into(), id: None, val: None, pos: 0 };
+    }
+    catch_unwind(AssertUnwindSafe(|| parse_ind(mode, buf, pos, ParseFlags::from_bits_truncate(flags), off, lens, Some(dec))))
+        .unwrap_or_else(|_| Parsed { text: "panic".into(), id: None, val: None, pos: 0 })
+}
+
+/// the request line the driver understands: a recorded `c03.parsedec` request without its `fk=` field
+pub fn driver_line(req: &str) -> String {
+    match req.rsplit_once(' ') {
+        Some((head, last)) if req.starts_with("c03.parsedec ") && last.starts_with("fk=") => head.to_string(),
+        _ => req.to_string(),
+    }
 }
 
 /// the model's answer to `c03.parse` in the canonical form of `imp_parse`
@@ -628,6 +657,20 @@ pub fn both_sides(req: &str, model: &str) -> (String, String) {
             let p = imp_parse(mode, &bytes(2), num(3), num(4) as u16, num(5), &lens, ctx);
             (canon_parse_answer(mode, model), p.text)
         }
+        "c03.parsedec" => {
+            // the recorded form: `c03.parsedec <mode> <buf> <pos> <flags> <off> <lens> <objkey> fk=<file key>`
+            let mode = f.get(1).copied().unwrap_or("");
+            let lens = f.get(6).and_then(|s| read_lens(s)).unwrap_or_default();
+            let imp = match f.get(8).and_then(|s| s.strip_prefix("fk=")).and_then(unhex) {
+                Some(fk) if !fk.is_empty() => {
+                    let n = fk.len();
+                    let dec = Decoder::new(fk, n, CryptMethod::V2, true);
+                    imp_parse_dec(mode, &bytes(2), num(3), num(4) as u16, num(5), &lens, &dec).text
+                }
+                _ => "file-key-missing".into(),
+            };
+            (canon_parse_answer(mode, model), imp)
+        }
         "c03.parsec" => {
             let lens = f.get(5).and_then(|s| read_lens(s)).unwrap_or_default();
             (canon_parsec_answer(model), imp_parsec(&bytes(1), num(2), num(3) as u16, num(4), &lens).text)
@@ -697,6 +740,55 @@ pub fn gen_string(rng: &mut Rng) -> Vec<u8> {
             _ => rng.byte(),
         })
         .collect()
+}
+
+/// strings whose spellings exercise the layout freedoms that proved fragile in other readers: parentheses nested
+/// several levels deep (`((()))`, `a(b(c(d)e)f)g`), small bytes directly before the digits 8, 9 and 0-7 (short
+/// octal escapes before a digit)
+pub fn gen_fragile_string(rng: &mut Rng) -> Vec<u8> {
+    fn nested(rng: &mut Rng, depth: usize, out: &mut Vec<u8>) {
+        let letters = rng.chance(1, 2);
+        if letters { out.push(b'a' + rng.below(26) as u8); }
+        if depth > 0 {
+            for _ in 0..(1 + rng.usize(2)) {
+                out.push(b'(');
+                nested(rng, depth - 1, out);
+                out.push(b')');
+                if out.len() > 40 { break; }
+            }
+        }
+        if letters && rng.chance(1, 2) { out.push(b'a' + rng.below(26) as u8); }
+    }
+    let mut out = vec![];
+    match rng.below(6) {
+        0 => { let d = 1 + rng.usize(5); out.extend(std::iter::repeat(b'(').take(d)); out.extend(std::iter::repeat(b')').take(d)); }
+        1 | 2 => { let d = 1 + rng.usize(4); nested(rng, d, &mut out); }
+        3 | 4 => {
+            // (byte, digit) pairs: the byte is small (one or two octal digits suffice) most of the time
+            for _ in 0..(1 + rng.usize(5)) {
+                out.push(match rng.below(4) { 0 => rng.below(8) as u8, 1 | 2 => rng.below(64) as u8, _ => rng.byte() });
+                out.push(*rng.pick(b"8989012345670"));
+            }
+        }
+        _ => {
+            let d = 1 + rng.usize(3);
+            nested(rng, d, &mut out);
+            let at = rng.usize(out.len() + 1);
+            out.insert(at, *rng.pick(b"89"));
+            out.insert(at, rng.below(64) as u8);
+        }
+    }
+    out
+}
+
+/// replaces about one string in five of `v` by a `gen_fragile_string` (C03 only: the generator proper is shared with C04)
+pub fn add_fragile_strings(rng: &mut Rng, v: &mut Val) {
+    match v {
+        Val::Str(s) => if rng.chance(1, 5) { *s = gen_fragile_string(rng); },
+        Val::Arr(xs) => xs.iter_mut().for_each(|x| add_fragile_strings(rng, x)),
+        Val::Dict(kvs) | Val::StreamPending(kvs, _) | Val::StreamInFile(kvs, ..) => kvs.iter_mut().for_each(|(_, x)| add_fragile_strings(rng, x)),
+        _ => {}
+    }
 }
 
 pub fn gen_name(rng: &mut Rng, cfg: &GenCfg) -> Vec<u8> {
@@ -1204,20 +1296,25 @@ fn gen_pcase_opt(seed: u64, case: u64, only_plain: bool) -> Option<PCase> {
         return None;
     }
     let (c, pmode): (RCase, &'static str) = if r < 55 {
-        let v = gen_val(&mut rng, 0, &cfg);
+        let mut v = gen_val(&mut rng, 0, &cfg);
+        add_fragile_strings(&mut rng, &mut v);
         (render_random(&mut rng, "val", v, tail, id, vec![]), "plain")
     } else if r < 60 {
         let levels = *rng.pick(&[19usize, 20, 21]);
-        let v = gen_deep(&mut rng, levels, &cfg);
+        let mut v = gen_deep(&mut rng, levels, &cfg);
+        add_fragile_strings(&mut rng, &mut v);
         if rng.chance(1, 2) { (render_random(&mut rng, "val", v, tail, id, vec![]), "plain") } else if only_plain { return None } else { (render_random(&mut rng, "ind", v, tail, id, vec![]), "ind0") }
     } else if r < 80 {
-        let v = gen_val(&mut rng, 0, &cfg);
+        let mut v = gen_val(&mut rng, 0, &cfg);
+        add_fragile_strings(&mut rng, &mut v);
         (render_random(&mut rng, "ind", v, tail, id, vec![]), if rng.chance(1, 2) { "ind0" } else { "ind1" })
     } else if r < 92 {
-        let (v, lens) = gen_stream(&mut rng, &cfg, true);
+        let (mut v, lens) = gen_stream(&mut rng, &cfg, true);
+        add_fragile_strings(&mut rng, &mut v);
         (render_random(&mut rng, "ind", v, tail, id, lens), if rng.chance(1, 2) { "ind0" } else { "ind1" })
     } else {
-        let (v, lens) = gen_stream(&mut rng, &cfg, true);
+        let (mut v, lens) = gen_stream(&mut rng, &cfg, true);
+        add_fragile_strings(&mut rng, &mut v);
         (render_random(&mut rng, "val", v, tail, id, lens), "stm")
     };
     let npre = if pmode == "stm" { 0 } else { rng.usize(6) };
@@ -1333,9 +1430,10 @@ fn gen_seq_case(seed: u64, case: u64) -> (RCase, Vec<u8>, usize) {
     let mut rng = Rng::derive(seed, "c03.seq", case);
     let cfg = GenCfg { bad_name_pct: 2, wild_names: false };
     let n = 2 + rng.usize(5);
-    let vs: Vec<Val> = (0..n).map(|_| gen_val(&mut rng, 1, &cfg)).collect();
+    let mut vs = Val::Arr((0..n).map(|_| gen_val(&mut rng, 1, &cfg)).collect());
+    add_fragile_strings(&mut rng, &mut vs);
     let tail: &[u8] = *rng.pick(&TAILS);
-    let c = render_random(&mut rng, "seq", Val::Arr(vs), tail, (0, 0), vec![]);
+    let c = render_random(&mut rng, "seq", vs, tail, (0, 0), vec![]);
     let npre = rng.usize(6);
     let mut buf = rng.bytes(npre);
     buf.extend_from_slice(&c.text);
@@ -1430,6 +1528,377 @@ fn mutated_stream(driver: &Driver, seed: u64, n: u64) -> Stream {
     }
     compare(driver, &mut st, &reqs);
     st
+}
+
+
+// ---------------------------------------------------------------------------------------------------
+// encrypted spellings: parse_indirect_object with a real RC4 `Decoder` (stream c03.enc, oracle c03.decrypts)
+
+pub struct EncKey {
+    /// file key length in bytes: 5 (V 1 / R 2) or 16 (V 2 / R 3)
+    pub n: usize,
+    /// the file key by `std_sec` (Algorithm 2)
+    pub file_key: Vec<u8>,
+    /// `user` | `owner` | `default`: how the decoder was opened
+    pub role: &'static str,
+    pub decoder: Decoder,
+}
+
+/// An encryption dictionary for a random document id, its /O and /U computed by `crate::c06::std_sec`
+/// (Algorithms 3, 2, 4/5) from the two passwords, read by the real `CryptDict::from_primitive`; the decoder is what
+/// the real `Decoder::from_password` (or `Decoder::default` for an empty user password) returns for it.
+pub fn build_rc4_decoder(rng: &mut Rng, n: usize, user_pw: &[u8]) -> Result<EncKey, String> {
+    use crate::c06::std_sec as ss;
+    let (v, r) = if n == 5 { (1i64, 2u32) } else { (2, 3) };
+    let id0 = rng.bytes(16);
+    let p = *rng.pick(&[-4i32, -44, -3904, -1, -1340, 0]);
+    let params = ss::Params { r, n, cipher: ss::Cipher::Rc4, p, id0: id0.clone(), encrypt_metadata: true };
+    let owner_pw: Vec<u8> = if rng.chance(1, 5) { user_pw.to_vec() } else { (0..1 + rng.usize(12)).map(|_| (0x21 + rng.below(0x5e)) as u8).collect() };
+    let u_tail = rng.bytes(16);
+    let mut rnd = |k: usize| u_tail[..k.min(16)].to_vec();
+    let e = ss::make_entries(&mut ss::Rec::off(), &params, user_pw, &owner_pw, &mut rnd);
+    let mut kvs: Vec<(Vec<u8>, Val)> = vec![(b"Filter".to_vec(), Val::Name(b"Standard".to_vec())), (b"V".to_vec(), Val::Int(v)), (b"R".to_vec(), Val::Int(r as i64))];
+    // V 1 ignores /Length (40 bits, stated or not); V 2 states it
+    if v == 2 || rng.chance(1, 2) {
+        kvs.push((b"Length".to_vec(), Val::Int(8 * n as i64)));
+    }
+    kvs.push((b"O".to_vec(), Val::Str(e.o.clone())));
+    kvs.push((b"U".to_vec(), Val::Str(e.u.clone())));
+    kvs.push((b"P".to_vec(), Val::Int(p as i64)));
+    let prim = val_to_prim(&Val::Dict(kvs)).ok_or("encryption dictionary not representable")?;
+    let cd = CryptDict::from_primitive(prim, &NoResolve).map_err(|e| format!("CryptDict::from_primitive: {}", e))?;
+    let role: &'static str = if rng.chance(1, 4) { "owner" } else if user_pw.is_empty() && rng.chance(1, 2) { "default" } else { "user" };
+    let dec = match role {
+        "owner" => Decoder::from_password(&cd, &id0, &owner_pw),
+        "default" => Decoder::default(&cd, &id0),
+        _ => Decoder::from_password(&cd, &id0, user_pw),
+    };
+    let decoder = dec.map_err(|e| format!("Decoder::from_password ({} password): {}", role, e))?;
+    Ok(EncKey { n, file_key: e.file_key, role, decoder })
+}
+
+/// Algorithm 1 for RC4 by `std_sec`: MD5(file key ‖ id[3 bytes LE] ‖ gen[2 bytes LE]) cut to min(n + 5, 16) bytes
+pub fn rc4_object_key(file_key: &[u8], id: u64, gen: u64) -> Vec<u8> {
+    use crate::c06::std_sec as ss;
+    ss::object_key(&mut ss::Rec::off(), ss::Cipher::Rc4, file_key, id, gen)
+}
+
+/// every string of `v` RC4-encrypted under `key` (RC4 is its own inverse); names and keys are not encrypted
+pub fn enc_val(v: &Val, key: &[u8]) -> Val {
+    match v {
+        Val::Str(s) => Val::Str(crate::c06::std_sec::rc4(key, s)),
+        Val::Arr(xs) => Val::Arr(xs.iter().map(|x| enc_val(x, key)).collect()),
+        Val::Dict(kvs) => Val::Dict(kvs.iter().map(|(k, x)| (k.clone(), enc_val(x, key))).collect()),
+        other => other.clone(),
+    }
+}
+
+pub fn count_strings(v: &Val) -> usize {
+    match v {
+        Val::Str(_) => 1,
+        Val::Arr(xs) => xs.iter().map(count_strings).sum(),
+        Val::Dict(kvs) | Val::StreamPending(kvs, _) | Val::StreamInFile(kvs, ..) => kvs.iter().map(|(_, x)| count_strings(x)).sum(),
+        _ => 0,
+    }
+}
+
+fn strip_strings(v: &Val) -> Val {
+    match v {
+        Val::Str(s) => if s.len() % 2 == 0 { Val::Int(s.len() as i64) } else { Val::Name(b"NoString".to_vec()) },
+        Val::Arr(xs) => Val::Arr(xs.iter().map(strip_strings).collect()),
+        Val::Dict(kvs) => Val::Dict(kvs.iter().map(|(k, x)| (k.clone(), strip_strings(x))).collect()),
+        other => other.clone(),
+    }
+}
+
+fn gen_enc_string(rng: &mut Rng) -> Vec<u8> {
+    match rng.below(12) {
+        0 => vec![],
+        1 => vec![rng.byte()],
+        2 => { let k = 40 + rng.usize(300); rng.bytes(k) }
+        3 => { let k = rng.usize(40); (0..k).map(|_| 0x20 + rng.below(0x5f) as u8).collect() }
+        4 => gen_fragile_string(rng),
+        5 => { let k = rng.usize(30); rng.bytes(k) }
+        _ => gen_string(rng),
+    }
+}
+
+/// a stream-free value in which strings are frequent, at every depth
+fn gen_enc_tree(rng: &mut Rng, depth: usize, cfg: &GenCfg) -> Val {
+    let p = [100u64, 45, 30, 15, 0];
+    if depth < 4 && rng.below(100) < p[depth] {
+        let n = if depth == 0 { 1 + rng.usize(5) } else { rng.usize(5) };
+        if rng.chance(1, 2) {
+            Val::Arr((0..n).map(|_| gen_enc_tree(rng, depth + 1, cfg)).collect())
+        } else {
+            let mut kvs: Vec<(Vec<u8>, Val)> = vec![];
+            for _ in 0..n {
+                let k = gen_name(rng, cfg);
+                if kvs.iter().any(|e| e.0 == k) { continue; }
+                kvs.push((k, gen_enc_tree(rng, depth + 1, cfg)));
+            }
+            Val::Dict(kvs)
+        }
+    } else if rng.chance(3, 5) {
+        Val::Str(gen_enc_string(rng))
+    } else {
+        gen_scalar(rng, cfg)
+    }
+}
+
+fn gen_enc_val(rng: &mut Rng) -> Val {
+    let cfg = GenCfg { bad_name_pct: 2, wild_names: false };
+    match rng.below(12) {
+        0 => strip_strings(&gen_val(rng, 0, &cfg)),
+        1..=3 => Val::Str(gen_enc_string(rng)),
+        4 => { let k = 2 + rng.usize(3); Val::Arr((0..k).map(|_| Val::Str(gen_enc_string(rng))).collect()) }
+        5 => {
+            // one string below several containers
+            let mut v = Val::Str(gen_enc_string(rng));
+            for _ in 0..(1 + rng.usize(6)) {
+                v = if rng.chance(1, 2) { Val::Arr(vec![v]) } else { Val::Dict(vec![(b"K".to_vec(), v)]) };
+            }
+            v
+        }
+        6 => gen_val(rng, 0, &cfg),
+        _ => gen_enc_tree(rng, 0, &cfg),
+    }
+}
+
+/// one case of `c03.enc` / `c03.decrypts`
+struct ECase {
+    /// c03.enc | c03.enc.witness
+    origin: &'static str,
+    seed: u64,
+    case: u64,
+    name: String,
+    key: EncKey,
+    objkey: Vec<u8>,
+    /// the value before encryption: what the parser must give back
+    plain: Val,
+    /// rendering of the value with every string encrypted (mode `ind`)
+    c: RCase,
+    pmode: &'static str,
+    buf: Vec<u8>,
+    pos: usize,
+    off: usize,
+}
+
+fn make_ecase(origin: &'static str, seed: u64, case: u64, name: String, key: EncKey, plain: Val, id: (u64, u64), render: impl FnOnce(Val) -> RCase, pmode: &'static str, prefix: Vec<u8>, off: usize) -> ECase {
+    let objkey = rc4_object_key(&key.file_key, id.0, id.1);
+    let c = render(enc_val(&plain, &objkey));
+    let pos = prefix.len();
+    let mut buf = prefix;
+    buf.extend_from_slice(&c.text);
+    ECase { origin, seed, case, name, key, objkey, plain, c, pmode, buf, pos, off }
+}
+
+fn gen_enc_case(seed: u64, case: u64) -> Result<ECase, String> {
+    let mut rng = Rng::derive(seed, "c03.enc", case);
+    let n = if rng.chance(1, 2) { 5 } else { 16 };
+    let user_pw = if rng.chance(1, 2) { vec![] } else { crate::c06::doc::rand_password(&mut rng, 3) };
+    let key = build_rc4_decoder(&mut rng, n, &user_pw)?;
+    // the key derivation uses the low 3 bytes of the number and the low 2 bytes of the generation: the real code
+    // (`to_le_bytes()[..3]`, `[..2]`) and `std_sec::object_key` (`id as u8, id >> 8, id >> 16`) cut larger numbers alike
+    let id = match rng.below(10) {
+        0 => *rng.pick(&[0u64, (1 << 23) - 1, 1 << 23, (1 << 24) - 1, 1 << 24, (1 << 24) + 7, u32::MAX as u64, u64::MAX]),
+        1..=3 => rng.below(1 << 23),
+        _ => 1 + rng.below(2000),
+    };
+    let gen = match rng.below(10) {
+        0 => *rng.pick(&[65535u64, 65536, 65537, 70000, u64::MAX]),
+        1 | 2 => rng.below(1 << 16),
+        _ => rng.below(3),
+    };
+    let plain = gen_enc_val(&mut rng);
+    let tail: &[u8] = *rng.pick(&TAILS);
+    let mut rr = Rng::new(rng.next());
+    let pmode = if rng.chance(1, 2) { "ind0" } else { "ind1" };
+    let npre = rng.usize(6);
+    let prefix = rng.bytes(npre);
+    let off = if rng.chance(1, 4) { 1 + rng.usize(1000) } else { 0 };
+    Ok(make_ecase("c03.enc", seed, case, "random".into(), key, plain, (id, gen), |v| render_random(&mut rr, "ind", v, tail, (id, gen), vec![]), pmode, prefix, off))
+}
+
+/// deterministic witnesses of `c03.decrypts` (independent of the seed): every value under both key lengths, several tapes
+fn enc_witness_cases() -> Result<Vec<ECase>, String> {
+    // `None`: the plaintext whose CIPHERTEXT is the given bytes (chosen with the object key)
+    let special: &[u8] = b"a(b)c\\d\re\nf((\\";
+    let wits: Vec<(&str, Option<Val>, (u64, u64))> = vec![
+        ("the string abc as object 7 0", Some(s(b"abc")), (7, 0)),
+        ("an empty string", Some(s(b"")), (7, 0)),
+        ("a string whose ciphertext contains ( ) \\ CR LF", None, (7, 0)),
+        ("[ (a) [ (b) << /K (c) >> ] ]", Some(Val::Arr(vec![s(b"a"), Val::Arr(vec![s(b"b"), Val::Dict(vec![(b"K".to_vec(), s(b"c"))])])])), (7, 0)),
+        ("a value without any string", Some(Val::Dict(vec![(b"A".to_vec(), Val::Int(1)), (b"B".to_vec(), Val::Arr(vec![n("N"), Val::Real("2.5".into()), Val::Bool(true), Val::Null, Val::Ref(3, 0)]))])), (7, 0)),
+        ("object 1234567 65535", Some(Val::Arr(vec![s(b"Hello World"), Val::Dict(vec![(b"Title".to_vec(), s(b"\xfe\xff\x00T"))])])), (1234567, 65535)),
+    ];
+    let mut out = vec![];
+    let mut idx = 0u64;
+    for (w, (name, plain, id)) in wits.iter().enumerate() {
+        for n in [5usize, 16] {
+            let mut rng = Rng::derive(0xC03E, "c03.enc.witness", (w * 2 + n / 16) as u64);
+            let user_pw: &[u8] = if (w + n / 16) % 2 == 0 { b"" } else { b"user" };
+            let (mut lit, mut hexf, mut j) = (0, 0, 0);
+            // six tapes per witness; the ciphertext witness until it was spelled as a literal string three times and in hexadecimal twice
+            while j < 6 || (plain.is_none() && (lit < 3 || hexf < 2) && j < 200) {
+                let key = build_rc4_decoder(&mut rng.clone(), n, user_pw)?;
+                let objkey = rc4_object_key(&key.file_key, id.0, id.1);
+                let pv = match plain { Some(v) => v.clone(), None => Val::Str(crate::c06::std_sec::rc4(&objkey, special)) };
+                let tail: &[u8] = TAILS[(j + w) % TAILS.len()];
+                let tape_seed = 1000 * (w as u64 * 2 + n as u64 / 16) + j as u64;
+                let e = make_ecase("c03.enc.witness", 0, idx, format!("{} (key of {} bytes, tape {})", name, n, j), key, pv, *id,
+                    |v| render_case("ind", v, &mut Tape::lazy(Rng::new(tape_seed)), tail, *id, vec![]), if j % 2 == 0 { "ind0" } else { "ind1" }, vec![], 0);
+                for f in &e.c.stats.forms { if f.1 { hexf += 1 } else { lit += 1 } }
+                out.push(e);
+                idx += 1;
+                j += 1;
+            }
+        }
+    }
+    Ok(out)
+}
+
+/// the oracle on one case: `None` = holds, else (signature, what)
+fn check_decrypts(e: &ECase, got: &Parsed) -> Option<(String, String)> {
+    if got.text == "panic" {
+        return Some(("panic".into(), "parse_indirect_object with a decoder panicked on a conformant spelling".into()));
+    }
+    let has_str = count_strings(&e.plain) > 0;
+    let gv = match &got.val {
+        Some(v) => v,
+        None => {
+            if has_non_utf8_name(&e.plain) {
+                return Some(("name-not-utf8".into(), "a conformant spelling with a name that is not UTF-8 after #xx decoding is rejected".into()));
+            }
+            return Some((if has_str { "enc-string" } else { "enc-value" }.into(), format!("a conformant spelling of an encrypted object ({} strings) is rejected (Err)", count_strings(&e.plain))));
+        }
+    };
+    let cx = DiffCtx { identify_numbers: false, buf: &e.buf, file_off: e.off, id: Some(e.c.id), forms: &[] };
+    if let Some(k) = diff_kind(&e.plain, gv, &cx) {
+        let sig = if k.starts_with("string") { "enc-string" } else { "enc-value" };
+        return Some((sig.into(), format!("the value read differs from the plaintext value (first difference: {})", k)));
+    }
+    if got.id != Some(e.c.id) {
+        return Some(("enc-value".into(), format!("object id read as {:?}, printed {}.{}", got.id, e.c.id.0, e.c.id.1)));
+    }
+    let cur = e.pos + e.c.endobj_end;
+    if got.pos != cur {
+        return Some(("enc-cursor".into(), format!("the cursor rests at {} but `endobj` ends at {}", got.pos, cur)));
+    }
+    None
+}
+
+fn run_enc_cases(driver: &Driver, cases: &[ECase], st: &mut Stream, or: &mut Oracle, render_st: &mut Stream) {
+    let (mut rreqs, mut rimps, mut preqs, mut recs, mut pimps, mut nts) = (vec![], vec![], vec![], vec![], vec![], vec![]);
+    for e in cases {
+        count_render(render_st, &e.c);
+        rreqs.push(render_request(&e.c));
+        rimps.push(hex(&e.c.text));
+        let got = imp_parse_dec(e.pmode, &e.buf, e.pos, 1023, e.off, &vec![], &e.key.decoder);
+        let ns = count_strings(&e.plain);
+        let big_id = e.c.id.0 >= 1 << 23 || e.c.id.1 >= 1 << 16;
+        let keys = [
+            format!("enc.strings-per-value={}", match ns { 0 => "0", 1 => "1", 2 | 3 => "2-3", _ => "4+" }),
+            format!("enc.keylen={}", e.key.n),
+            format!("enc.password={}", e.key.role),
+            format!("enc.object-number={}", if big_id { "id>=2^23-or-gen>=2^16" } else { "id<2^23,gen<2^16" }),
+            format!("mode={}", e.pmode),
+            format!("nest={}", nest(&e.plain)),
+        ];
+        for k in &keys { st.count(k); or.count(k); }
+        for f in &e.c.stats.forms {
+            let k = if f.1 { "enc.string-form=hex" } else { "enc.string-form=literal" };
+            st.count(k); or.count(k);
+            if f.0.iter().any(|b| b"()\\\r\n".contains(b)) { or.count("enc.ciphertext-with-paren-backslash-or-eol"); }
+        }
+        if e.off != 0 { st.count("file-offset=nonzero"); }
+        if e.origin == "c03.enc.witness" { or.count("witness"); }
+        or.count(&format!("outcome={}", got.text.split(' ').next().unwrap_or("")));
+        let line = format!("c03.parsedec {} {} {} 1023 {} - {}", e.pmode, hex(&e.buf), e.pos, e.off, hex(&e.objkey));
+        or.case(&format!("{} {}", line, hex(&e.key.file_key)), ns > 0, || json!({"case": e.name, "plaintext": show_val(&e.plain), "object": format!("{} {}", e.c.id.0, e.c.id.1), "keylen": e.key.n,
+            "text": String::from_utf8_lossy(&e.c.text), "got": got.text}));
+        if let Some((sig, what)) = check_decrypts(e, &got) {
+            let what = if e.origin == "c03.enc.witness" { format!("witness '{}': {}", e.name, what) } else { what };
+            fail_limited(or, &sig, &what, json!({"stream": e.origin, "seed": e.seed, "case": e.case, "mode": e.pmode, "plaintext": show_val(&e.plain), "encrypted": show_val(&e.c.value),
+                "tape": show_tape(&e.c.tape), "tail": hex(&e.c.tail), "id": e.c.id.0, "gen": e.c.id.1, "keylen": e.key.n, "password": e.key.role, "file_key": hex(&e.key.file_key), "object_key": hex(&e.objkey),
+                "buffer": hex(&e.buf), "pos": e.pos, "file_offset": e.off, "expected": format!("{}.{} {} cursor {}", e.c.id.0, e.c.id.1, show_canon(&e.plain), e.pos + e.c.endobj_end),
+                "got": got.text, "text": String::from_utf8_lossy(&e.buf)}));
+        }
+        recs.push(format!("{} fk={}", line, hex(&e.key.file_key)));
+        preqs.push(line);
+        pimps.push(got.text);
+        nts.push(ns > 0);
+    }
+    let resp = driver.ask(&rreqs);
+    for ((rq, m), i) in rreqs.iter().zip(resp.iter()).zip(rimps.iter()) {
+        render_st.case(rq, m, i, true);
+    }
+    let resp = driver.ask(&preqs);
+    for ((((rq, m), i), nt), e) in recs.iter().zip(resp.iter()).zip(pimps.iter()).zip(nts.iter()).zip(cases.iter()) {
+        let m = canon_parse_answer(e.pmode, m);
+        st.count(&format!("outcome={}", m.split(' ').next().unwrap_or("")));
+        st.case(rq, &m, i, *nt);
+    }
+}
+
+/// an AESV2 decoder on strings that are no AES ciphertext (shorter than the initialisation vector, no whole blocks, bad
+/// padding): `parse_indirect_object` must answer `Err`. Oracle only: the model is not asked.
+fn failing_decryptor_witnesses(or: &mut Oracle) {
+    let dec = Decoder::new((0..16u8).map(|i| 0x42 ^ i).collect(), 16, CryptMethod::AESV2, true);
+    let texts: [(&str, &[u8]); 4] = [
+        ("5-byte literal string", b"7 0 obj (abcde) endobj"),
+        ("21-byte hexadecimal string", b"7 0 obj <000102030405060708090a0b0c0d0e0f1011121314> endobj"),
+        ("16 bytes: an initialisation vector and nothing else", b"7 0 obj [ /A (0123456789abcdef) ] endobj"),
+        ("5-byte string inside a dictionary inside an array", b"7 0 obj [ 1 << /K (abcde) >> ] endobj"),
+    ];
+    for (k, (name, text)) in texts.iter().enumerate() {
+        for mode in ["ind0", "ind1"] {
+            let got = imp_parse_dec(mode, text, 0, 1023, 0, &vec![], &dec);
+            or.count("witness");
+            or.count("witness=failing-decryptor");
+            or.count(&format!("outcome={}", got.text.split(' ').next().unwrap_or("")));
+            or.case(&format!("failing-decryptor {} {}", mode, hex(text)), true, || json!({"witness": format!("failing-decryptor: {}", name), "text": String::from_utf8_lossy(text), "got": got.text}));
+            let replay = json!({"stream": "c03.enc.failing-decryptor", "seed": 0, "case": k, "mode": mode, "buffer": hex(text), "expected": "err", "got": got.text, "text": String::from_utf8_lossy(text)});
+            if got.text == "panic" {
+                or.fail("panic", &format!("witness 'failing-decryptor' ({}): parse_indirect_object panics when the decoder fails", name), replay);
+            } else if got.text != "err" {
+                or.fail("enc-string", &format!("witness 'failing-decryptor' ({}): a string the AESV2 decoder cannot decrypt is accepted: {}", name, got.text), replay);
+            }
+        }
+    }
+}
+
+/// `witnesses`: all of them (`Some(None)`), one (`Some(Some(index))`) or none; then the random cases `from..to`
+fn enc_streams(driver: &Driver, seed: u64, witnesses: Option<Option<u64>>, from: u64, to: u64, render_st: &mut Stream) -> (Stream, Oracle) {
+    let mut st = Stream::new("c03.enc", true);
+    let mut or = Oracle::new("c03.decrypts");
+    let broken = |or: &mut Oracle, origin: &str, case: u64, e: String| {
+        or.fail("enc-decoder", &format!("no decoder for a dictionary computed by the harness's implementation of the standard security handler: {}", e), json!({"stream": origin, "seed": seed, "case": case}));
+    };
+    if let Some(only) = witnesses {
+        match enc_witness_cases() {
+            Ok(ws) => {
+                let ws: Vec<ECase> = ws.into_iter().filter(|e| only.map(|c| c == e.case).unwrap_or(true)).collect();
+                run_enc_cases(driver, &ws, &mut st, &mut or, render_st);
+            }
+            Err(e) => broken(&mut or, "c03.enc.witness", 0, e),
+        }
+        if only.is_none() { failing_decryptor_witnesses(&mut or); }
+    }
+    let mut lo = from;
+    while lo < to {
+        let hi = (lo + 20_000).min(to);
+        let mut cases = vec![];
+        for case in lo..hi {
+            match gen_enc_case(seed, case) {
+                Ok(e) => cases.push(e),
+                Err(e) => broken(&mut or, "c03.enc", case, e),
+            }
+        }
+        run_enc_cases(driver, &cases, &mut st, &mut or, render_st);
+        lo = hi;
+    }
+    (st, or)
 }
 
 // ---------------------------------------------------------------------------------------------------
@@ -1680,7 +2149,7 @@ fn tails_stream(driver: &Driver) -> Stream {
 
 fn gen_str_case(seed: u64, case: u64) -> (Vec<u8>, bool, Vec<u8>, usize, usize) {
     let mut rng = Rng::derive(seed, "c03.str", case);
-    let mut s = gen_string(&mut rng);
+    let mut s = if rng.chance(1, 6) { gen_fragile_string(&mut rng) } else { gen_string(&mut rng) };
     if rng.chance(1, 8) { for _ in 0..3 { s.extend(gen_string(&mut rng)); } }
     let is_hex = rng.chance(1, 3);
     let mut tape = Tape::lazy(Rng::new(rng.next()));
@@ -1754,6 +2223,8 @@ fn s(b: &[u8]) -> Val { Val::Str(b.to_vec()) }
 
 fn denotes_witnesses() -> Vec<Wit> {
     let w = |name, buf: &'static [u8], exp: Val| Wit { name, buf, mode: "plain", exp: vec![exp], ends: vec![buf.len()] };
+    // the value's text ends at `end`, something follows
+    let we = |name, buf: &'static [u8], exp: Val, end: usize| Wit { name, buf, mode: "plain", exp: vec![exp], ends: vec![end] };
     vec![
         // (a) the open finding
         w("open: name that is not UTF-8", b"/#ff", Val::Name(vec![0xff])),
@@ -1773,6 +2244,23 @@ fn denotes_witnesses() -> Vec<Wit> {
         w("integer at the end of the buffer", b"5", Val::Int(5)),
         w("integers before a reference", b"[1 2 3 0 R]", Val::Arr(vec![Val::Int(1), Val::Int(2), Val::Ref(3, 0)])),
         w("no white-space at all", b"[/A/B(x)<41>[1]<</K/V>>]", Val::Arr(vec![n("A"), n("B"), s(b"x"), s(b"A"), Val::Arr(vec![Val::Int(1)]), Val::Dict(vec![(b"K".to_vec(), n("V"))])])),
+        // (c) layout freedoms that proved fragile in other readers (hand-written texts; `freedom.comment.*`, `freedom.name.hash-count`,
+        //     `freedom.lit.paren-depth`, `freedom.lit.octal.before-*` count how often the renderings exercise them)
+        we("comment glued to an integer, end of buffer", b"12%c\n", Val::Int(12), 2),
+        we("comment glued to an integer, then a name", b"12%c\n/X", Val::Int(12), 2),
+        we("comment glued to an integer, then an integer", b"12%c\n 1 0 obj", Val::Int(12), 2),
+        w("comment glued to an integer inside an array", b"[12%c\n13]", Val::Arr(vec![Val::Int(12), Val::Int(13)])),
+        w("three comments without a byte between them", b"[1%a\n%b\r%c\r\n2]", Val::Arr(vec![Val::Int(1), Val::Int(2)])),
+        w("two comments with white-space between them", b"[ 1 % a\n % b\n 2]", Val::Arr(vec![Val::Int(1), Val::Int(2)])),
+        w("name with three #xx", b"/A#20B#23C#2f", n("A B#C/")),
+        w("name made of #xx only", b"/#41#42#43", n("ABC")),
+        w("parentheses nested four deep", b"(a(b(c(d)c)b)a)", s(b"a(b(c(d)c)b)a")),
+        w("parentheses only", b"((()))", s(b"(())")),
+        w("one octal digit before 8", b"(\\18)", s(b"\x018")),
+        w("two octal digits before 9", b"(\\129)", s(b"\x0a9")),
+        w("three octal digits before an octal digit", b"(\\0053)", s(b"\x053")),
+        w("short octal escapes before 8, 9 and the end", b"(\\18\\19\\7)", s(b"\x018\x019\x07")),
+        w("comment glued to an integer inside a dictionary", b"<< /K 12%c\n/L(x)>>", Val::Dict(vec![(b"K".to_vec(), Val::Int(12)), (b"L".to_vec(), s(b"x"))])),
     ]
 }
 
@@ -1831,7 +2319,7 @@ pub fn run(driver: &Driver, seed: u64, thorough: bool, replay: Option<&Value>) -
         if let Some(req) = r["disagreement"]["request"].as_str() {
             // a stored disagreement: the same request to both sides
             let mut st = Stream::new(stream, true);
-            let resp = driver.ask(&[req.to_string()]);
+            let resp = driver.ask(&[driver_line(req)]);
             let (m, i) = both_sides(req, &resp[0]);
             st.case(req, &m, &i, true);
             rep.streams.push(st);
@@ -1848,6 +2336,9 @@ pub fn run(driver: &Driver, seed: u64, thorough: bool, replay: Option<&Value>) -
                 if let Some(c) = cursor_replay_case(r, seed, case, stream) { run_cursor_cases(driver, &[c], &mut st, &mut any, &mut or); }
                 rep.streams.push(st); rep.streams.push(any); rep.oracles.push(or);
             }
+            "c03.enc" | "c03.decrypts" => { let (st, or) = enc_streams(driver, seed, None, case, case + 1, &mut render_st); rep.streams.push(st); rep.oracles.push(or); rep.streams.push(render_st); }
+            "c03.enc.witness" => { let (st, or) = enc_streams(driver, seed, Some(Some(case)), 0, 0, &mut render_st); rep.streams.push(st); rep.oracles.push(or); rep.streams.push(render_st); }
+            "c03.enc.failing-decryptor" => { let mut or = Oracle::new("c03.decrypts"); failing_decryptor_witnesses(&mut or); rep.oracles.push(or); }
             "c03.tails" => rep.streams.push(tails_stream(driver)),
             "c03.str" => { let mut or = Oracle::new("c03.denotes"); let sts = str_streams(driver, seed, case, case + 1, 0, &mut or); rep.streams.extend(sts); rep.oracles.push(or); }
             _ => { let (sts, or) = parse_streams(driver, seed, case, case + 1, &mut render_st); rep.streams.extend(sts); rep.oracles.push(or); rep.streams.push(render_st); }
@@ -1875,6 +2366,10 @@ pub fn run(driver: &Driver, seed: u64, thorough: bool, replay: Option<&Value>) -
     let (st, or) = seq_streams(driver, seed, 0, 15000 * k, &mut render_st);
     rep.streams.push(st);
     merge_oracle(&mut sq, or);
+    // witnesses of c03.decrypts first, then the random cases
+    let (enc_st, decrypts) = enc_streams(driver, seed, Some(None), 0, 6000 * k, &mut render_st);
+    rep.streams.push(enc_st);
+    rep.notes.push("c03.enc / c03.decrypts: the decoder is the real `Decoder::from_password` / `Decoder::default` on a dictionary whose /O and /U the harness's own implementation of the standard security handler computed (V 1 / R 2 with 5 key bytes, V 2 / R 3 with 16); the model (`c03.parsedec`) receives the per-object key only (MD5(file key, 3 bytes of the number, 2 bytes of the generation), computed by the harness), so the key derivation itself is C06's subject, not this stream's".into());
     let never: Vec<&str> = FREEDOM_KEYS.iter().copied().filter(|k| render_st.histogram.get(*k).copied().unwrap_or(0) == 0).collect();
     rep.notes.push(format!("layout freedoms of the printer never exercised by the renderings of this run (c03.render histogram `freedom.*`, {} keys): {}", FREEDOM_KEYS.len(), if never.is_empty() { "none".to_string() } else { never.join(", ") }));
     rep.streams.push(render_st);
@@ -1885,6 +2380,7 @@ pub fn run(driver: &Driver, seed: u64, thorough: bool, replay: Option<&Value>) -
     rep.notes.push("the cursor of `parse_stream` (mode stm) cannot be observed through the public API: value only".into());
     rep.oracles.push(den);
     rep.oracles.push(sq);
+    rep.oracles.push(decrypts);
     rep.oracles.push(restore);
     rep
 }
